@@ -336,10 +336,21 @@ _COMP_NAMES = {"listcomp", "setcomp", "dictcomp", "genexpr", "lambda"}
 def install_probe(records):
     """record what EvalFunc.resolve_nonlocals decided, read off the interpreter's own tables"""
     from custom_components.pyscript import eval as ev
-    orig = ev.EvalFunc.resolve_nonlocals
+    orig = getattr(ev.EvalFunc, "resolve_nonlocals", None)
+    if orig is None:
+        # the observation point is gone (a refactoring?): the tie of parts (b)/(c) cannot be checked – reported as a
+        # broken correspondence, never as a crash or a violation by itself
+        records.append({"probe_error": "EvalFunc.resolve_nonlocals not found"})
+        return lambda: None
 
     async def wrapped(self, ast_ctx):
         await orig(self, ast_ctx)
+        try:
+            observe(self, ast_ctx)
+        except Exception as e:  # pylint: disable=broad-except
+            records.append({"probe_error": f"{type(e).__name__}: {e}"})
+
+    def observe(self, ast_ctx):
         tables = list(reversed(ast_ctx.sym_table_stack + [ast_ctx.sym_table]))
         parent = ast_ctx.curr_func
         pwhere = getattr(parent, "_verif_where", {}) if parent is not None else {}
@@ -451,6 +462,9 @@ def names_analysis(src, records):
     import ast
     import symtable
     tree = ast.parse(src)
+    errs = [r["probe_error"] for r in records if "probe_error" in r]
+    if errs:
+        return ["C03 " + sx(["probe-failed"])], [("raw", None)], ["probe-ok (the interpreter's tables could not be read: " + errs[0][:120] + ")"], []
     if any(isinstance(n, ast.ClassDef) for n in ast.walk(tree)):
         return [], [], [], []
     # function definitions with their chains of enclosing functions (innermost first)
